@@ -22,7 +22,7 @@ def items(tier, seed):
         fargs={'parts': [('windows', {'values': [1, 2]}),
                          ('durs', {'values': [0, 1, 2]})]},
         job_open={'forever': [True], 'out': ['raise'], 'dur': ['never']},
-        top_open={'timeout': [2, 3]}, k=2 if th else 1, bound=3 if th else 2)
+        top_open={'timeout': [2, 3]}, pre=True, k=2 if th else 1, bound=3 if th else 2)
     yield from spaces.mk(
         ['flat5s'], th, force='windows', fargs={'values': [1, 2, 3]},
         job_open={'dur': [0, 2], 'out': ['raise']}, top_open={}, k=1,
